@@ -189,10 +189,14 @@ def run(ctx):
         poly = rng.random() < 0.3
         if poly:
             atom = ('bin', 'and', atom, ('bin', gen.pick(rng, ('=', '!=')), ('field', root, f'qp{n}'), ('field', root, f'qq{n}')))
-        if root != A.THIS:
-            # every predicate must still mention its own message: a trivial atom on a numeric own field
+        if root != A.THIS and rng.random() < 0.5:
+            # half of the time the predicate also mentions its own message (a trivial atom on a numeric own field);
+            # otherwise every reference of the event is rooted at the earlier event's alias
             own = sorted(k for k, t in schemas[topic][1].items() if t == gen.NUM)[0]
             atom = ('bin', 'and', atom, ('bin', '>=', ('field', A.THIS, own), ('field', A.THIS, own)))
+        elif root != A.THIS and rng.random() < 0.7:
+            pred = None
+            ctx.count('alias_rooted_only_predicates')
         newpred = atom if pred is None else ('bin', gen.pick(rng, ('and', 'or', 'implies')), pred, atom) if rng.random() < 0.7 else ('bin', 'and', atom, pred)
         alts[ai] = ('ev', topic, alias, newpred)
         new_ev = alts[0] if ev[0] != 'disj' else ('disj', tuple(alts))
